@@ -12,7 +12,12 @@ go build ./... && go build -tags verif ./... || { echo "REPO BUILD FAILS"; exit 
 F=$(go test -vet=off -count=1 ./... 2>&1 | grep -v '^ok\|no test files')
 [ -n "$F" ] && { echo "REPO TESTS FAIL: $F"; exit 1; }
 cd /verif || exit 1
-git checkout -- coq/gen evidence 2>/dev/null; git merge --no-edit wt-$C >/tmp/merge-$C.log 2>&1
+git checkout -- coq/gen evidence 2>/dev/null
+# anything else that is modified (seed records written by sweeps) is committed first: a merge refused because of
+# local changes must never be mistaken for a merge
+if [ -n "$(git status --porcelain)" ]; then git add -A && git commit -qm "records before merging wt-$C"; fi
+git merge --no-edit wt-$C >/tmp/merge-$C.log 2>&1
+if grep -q "Aborting\|would be overwritten" /tmp/merge-$C.log; then echo "MERGE REFUSED:"; tail -5 /tmp/merge-$C.log; exit 1; fi
 for f in $(git diff --name-only --diff-filter=U); do
   case "$f" in
     known_findings.json) python3 tools/merge_kf.py wt-$C && git add known_findings.json ;;
